@@ -24,6 +24,7 @@ except Exception as _e:  # advisory only
 print("inner monitors:", _attached, flush=True)
 
 ZSOCK = sys.argv[1]
+COV_DIR = os.environ.get("VERIF_COV_DIR")  # tools/covmap.py: which lines of jade the campaign's processes executed
 if os.path.exists(ZSOCK):
     os.remove(ZSOCK)
 try:  # the fork server ends with the check that started it
@@ -70,6 +71,16 @@ def run_child(conn, req, fds):
     sys.argv = [req["prog"]] + req["args"]
     os.setpgid(0, 0)
     code = 0
+    cov = None
+    if COV_DIR:
+        try:
+            import coverage
+
+            os.environ.setdefault("COVERAGE_CORE", "sysmon")
+            cov = coverage.Coverage(data_file=os.path.join(COV_DIR, "cov"), data_suffix=True, source_pkgs=["jade"], messages=False)
+            cov.start()
+        except Exception:
+            cov = None
     try:
         vsim_agent.activate(role="py", extra={"via": req["shim_pid"]})
         if req["prog"] == "vpy":
@@ -89,6 +100,12 @@ def run_child(conn, req, fds):
         traceback.print_exc()
         code = 1
     finally:
+        if cov is not None:
+            try:
+                cov.stop()
+                cov.save()
+            except Exception:
+                pass
         try:
             logging.shutdown()
             sys.stdout.flush()
